@@ -201,6 +201,21 @@ def mk_builder(I, st, page_range=None):
 def builder(chk):
     I = chk.I
     S = size_ty('Size4KiB')
+    # clone(): a copy of the builder sends what the original would
+    cands = [n for n in I.fn if n.startswith('<%sInvlpgbFlushBuilder<' % TLB) and n.endswith(' as core::clone::Clone>::clone')]
+    fn_ = cands[0] if cands else None
+    if fn_ is not None:
+        st = State()
+        b = mk_builder(I, st)
+        b = Struct(b.name, [b.fields[0], b.fields[1], some(I.sym_value(adt(TLB + 'Pcid'), 'pc')), some(BV.sym(16, 'asid')), b.fields[4], b.fields[5], b.fields[6]])
+        ref = arg_obj(st, 'self', b)
+        saved_m = dict(I.models)
+        outs = I.run(fn_, [ref], st, {g: S for g in I.fn[fn_]['generics']})
+        ok = len(outs) == 1 and outs[0].kind == 'ret' and isinstance(outs[0].val, Struct) and len(outs[0].val.fields) == len(b.fields) and \
+            all(same(x, y) for x, y in zip(outs[0].val.fields, b.fields))
+        chk.ob('invlpgb', 'builder.clone() copies every field', ok, 'paths %r\n      original %r' % (outs, b), fn_site(I, fn_))
+    else:
+        chk.unproven('invlpgb', 'builder.clone()', 'Clone impl not found (anchor lost)')
     # pcid()
     st = State()
     b = mk_builder(I, st)
